@@ -64,13 +64,13 @@ Qed.
 Lemma fb_inv_fresh k : fb_inv (mkfbuf k newfile 0).
 Proof. repeat split; cbn; lia. Qed.
 
-Lemma fb_init_none k : fb_init k None = Ok (mkfbuf k newfile 0).
+Lemma fb_init_none k : fb_init FNone k None = InitOk (mkfbuf k newfile 0).
 Proof. reflexivity. Qed.
 
 (* migration: the whole content is copied and the read position restored, so
    the new buffer wraps a file equal to the old one *)
 Lemma fb_init_copy k b : fb_inv b ->
-  fb_init k (Some b) = Ok (mkfbuf k (fb_file b) (fb_remain b)).
+  fb_init FNone k (Some b) = InitOk (mkfbuf k (fb_file b) (fb_remain b)).
 Proof.
   intros (Hc & Hp & Hr). destruct b as [k0 [c p cl] r]. cbn in *. subst cl.
   unfold fb_init, f_read_all. cbn [fb_file f_closed f_tell f_pos f_seek_set f_content skipn].
